@@ -565,7 +565,7 @@ def _fam(dt):
     n = type(dt).__name__
     for pre in ("UInt", "Int", "Float", "Boolean", "DatetimeTZ", "Period", "Interval"):
         if n.startswith(pre):
-            return {"Boolean": "boolean", "DatetimeTZ": "datetimetz"}.get(pre, pre)
+            return {"Boolean": "boolean", "DatetimeTZ": "datetimetz", "UInt": "Int"}.get(pre, pre)
     return n
 
 
@@ -712,15 +712,17 @@ def _index_diff(a, b, memo, path):
             if r is not None:
                 return r
         return None
-    if a.dtype != b.dtype and not (_fam(a.dtype) == "category" == _fam(b.dtype)):
-        return ("Index:different-dtype:" + _fams(a.dtype, b.dtype), path)
     if diff(a.name, b.name, memo, path + ".name") is not None:
         return ("Index:different-name", path)
     if len(a) != len(b):
         return ("Index:different-length", path)
     if isinstance(a, pd.RangeIndex):
         return None if list(a) == list(b) else ("RangeIndex:different-values", path)
-    return _arr_diff(a.array, b.array, memo, path + ".values")
+    # the dtype of an Index is the dtype of its array: the innermost difference is found there
+    r = _arr_diff(a.array, b.array, memo, path + ".values")
+    if r is None and a.dtype != b.dtype:
+        return ("Index:different-dtype:" + _fams(a.dtype, b.dtype), path)
+    return r
 
 
 def _col_arrays(df):
@@ -953,6 +955,19 @@ def feature_of(v):
         if isinstance(v, np.generic):
             return "npscalar"
     if mod.startswith("pandas"):
+        if t.__name__ == "DataFrame":
+            f = ["DataFrame"]
+            try:      # private attribute, used for the label only
+                import numpy as np
+
+                arrs = list(v._mgr.arrays)
+                if len(arrs) > len({str(a.dtype) for a in arrs}):
+                    f.append("unconsolidated-blocks")
+                if any(isinstance(a, np.ndarray) and a.ndim == 2 and min(a.shape) > 1 and not a.flags.c_contiguous for a in arrs):
+                    f.append("block-not-c-contiguous")
+            except Exception:  # noqa: BLE001
+                pass
+            return "&".join(f)
         return t.__name__
     if dataclasses.is_dataclass(v) and not isinstance(v, type):
         return "dataclass"
@@ -960,6 +975,8 @@ def feature_of(v):
 
     if t is types.FunctionType:
         return "lambda" if v.__name__ == "<lambda>" else "function"
+    if t in (set, frozenset, dict) and len({str(k) for k in v}) < len(v):
+        return t.__name__ + "&" + ("keys" if t is dict else "elements") + "-with-equal-str"
     return t.__name__
 
 
@@ -984,6 +1001,23 @@ def children(v):
 
         if isinstance(v, np.ndarray) and v.dtype.kind == "O" and v.size <= 64:
             return list(v.flat)
+    if mod.startswith("pandas"):
+        import pandas as pd
+
+        if isinstance(v, pd.MultiIndex):
+            return [v.get_level_values(i) for i in range(v.nlevels)]
+        if isinstance(v, pd.RangeIndex):
+            return []
+        if isinstance(v, pd.Index):
+            return [v.array]
+        if isinstance(v, pd.Series):
+            return [v.index, v.array]
+        if isinstance(v, pd.DataFrame):
+            return [v.columns, v.index] + [v.iloc[:, j].array for j in range(v.shape[1])]
+        if type(v) is pd.arrays.NumpyExtensionArray:
+            return [v.to_numpy()]
+        if isinstance(v, pd.Categorical):
+            return [v.categories]
     return []
 
 
